@@ -1032,6 +1032,7 @@ class PyCdlib:
         child_links = []
         lastbyte = 0
         dirs = collections.deque([root_dir_record])
+        seen_dir_extents = {root_dir_record.extent_location()}
         while dirs:
             dir_record = dirs.popleft()
 
@@ -1179,6 +1180,9 @@ class PyCdlib:
                         # record in the parent_links list for later linking.
                         parent_links.append(new_record)
                     if not dots and not rr_cl:
+                        if new_extent_loc in seen_dir_extents:
+                            raise pycdlibexception.PyCdlibInvalidISO('Directory loop on the ISO')
+                        seen_dir_extents.add(new_extent_loc)
                         dirs.append(new_record)
                         new_record.set_ptr(extent_to_ptr[new_extent_loc])
 
@@ -2236,6 +2240,27 @@ class PyCdlib:
         modification.  Note that the file object passed in here must stay open
         for the lifetime of this object, as the PyCdlib class uses it internally
         to do writing and reading operations.
+
+        Parameters:
+         fp - The file object containing the ISO to open up.
+        Returns:
+         Nothing.
+        """
+        try:
+            self._parse_fp(fp)
+        except (struct.error, IndexError, KeyError, ValueError, OverflowError) as e:
+            # The data on the ISO drives every step of the parse, so a damaged
+            # or truncated ISO can trip low-level errors; report all of them
+            # the way the rest of the parser reports a corrupt ISO.
+            managing_fp = self._managing_fp
+            self._initialize()
+            self._managing_fp = managing_fp
+            raise pycdlibexception.PyCdlibInvalidISO('Corrupt ISO (%s: %s)' % (type(e).__name__, e))
+
+    def _parse_fp(self, fp):
+        # type: (IO) -> None
+        """
+        An internal method that does the work of _open_fp.
 
         Parameters:
          fp - The file object containing the ISO to open up.
